@@ -167,8 +167,10 @@ func jsonEncLine(t []string) string {
 
 // snap <cfg> <seed> <hexprefix> <hexsuffix> : VM A runs prefix; variables are snapshotted to JSON and restored into a fresh
 // VM B seeded with A's current generator state; both run suffix. Prints both outcomes and both variable maps.
+// an optional 6th field is a script the restore TARGET has run before the snapshot is loaded into it (a host that initialises a sheet and
+// then loads the saved state, or loads twice): loading replaces the variables, it does not merge
 func snapLine(t []string) string {
-	if len(t) != 5 {
+	if len(t) != 5 && len(t) != 6 {
 		return "bad-op"
 	}
 	cfg, ok := parseCfg(t[1])
@@ -195,6 +197,18 @@ func snapLine(t []string) string {
 	b.Seed = seed
 	b.Init()
 	b.Config = cfg
+	if len(t) == 6 {
+		ini, ok4 := unhx(t[5])
+		if !ok4 {
+			return "bad-op"
+		}
+		b.Config.OpCountLimit = 100000
+		_ = b.Run(ini) // no dice in it: the generator stays where the snapshot says it is
+		b.Config = cfg
+		if err := json.Unmarshal(js, b.Attrs); err != nil {
+			return "restore-err " + hx(err.Error()) + " " + hx(string(js))
+		}
+	}
 	if err := json.Unmarshal(js, b.Attrs); err != nil {
 		return "restore-err " + hx(err.Error()) + " " + hx(string(js))
 	}
